@@ -21,6 +21,9 @@ CHECKS = {
     "C19": dict(
         text="Coq theorems over a model of the two dataclasses as finite maps with the regenerated __setattr__ allow-list and __post_init__ masks: for every constructor argument, every attribute name (any string) and every value, assignment on a constructed channel record raises and leaves the record unchanged unless the name is en/div, in which case exactly that attribute changes; on the device record it always raises; derived attributes equal their defining functions for all 256 type bytes / flag bytes (sweep lifted by lemma). Differential: real records (direct, via DeviceChannel.data, via Device.channel_get) x names x value kinds x type bytes, __dict__ before/after compared.",
         design="3/C19", technique="Coq proof (all names/values; 256-value sweeps lifted) + translator-regenerated constants + differential correspondence"),
+    "C05": dict(
+        text="Coq theorems over models of the client builders (parse.py) and the device-side decoders (parserecv.py) with regenerated format strings and flag values: for every device size 1..255, every current state, every channel, every 8-bit value and every vector, the emitted bytes are wire(id, spec payload), the device-side receiver hands exactly that payload to the right callback, and the decoder returns exactly the intended per-channel vector, whichever compact form (single/all/bulk) was chosen. Differential: builders vs independent encoder, real recv_handle, real decoders on devices with random current state.",
+        design="3/C05", technique="Coq proof (induction over vectors; struct round-trip lemmas) + translator-regenerated constants + differential correspondence"),
 }
 PENDING = {}
 
